@@ -5,8 +5,11 @@
 pub mod dirmodel;
 pub mod dump;
 pub mod gen;
+pub mod indep;
 pub mod packs;
 pub mod report;
+pub mod shard;
+pub mod watchdog;
 
 pub use report::{Args, Report};
 
